@@ -119,7 +119,7 @@ func (d *Discharger) Discharge(vc *VC) {
 	os.WriteFile(inc, []byte(txt), 0o644)
 	d.sem <- struct{}{}
 	perOb := d.TimeoutS
-	total := perOb + len(obs)/4 + 5
+	total := 2*perOb + len(obs)/2 + 10
 	// per-check timeout inside z3: use -t (soft per query ms)
 	s := solverSpec{"z3-new", func(f string, t int) []string {
 		return []string{"z3-new", fmt.Sprintf("-t:%d", perOb*1000), fmt.Sprintf("-T:%d", t), f}
